@@ -136,6 +136,16 @@ pub(crate) async fn cleanup_stopped_child_resources(
       ?stopped_child_actor_type,
       "No EndpointInfo found to remove for stopped child (might be PipeReader or already cleaned up)."
     );
+    // A session can stop before SocketCore has processed the NewConnectionEstablished command that
+    // registers it. Remember it, so that the registration does not leave a dead endpoint behind.
+    if stopped_child_actor_type == ActorType::Session && !is_full_core_shutdown {
+      let mut core_s_write = core_arc.core_state.write();
+      let early = &mut core_s_write.sessions_stopped_before_registration;
+      early.push_back((stopped_child_actor_id, error_opt.cloned()));
+      while early.len() > 64 {
+        early.pop_front();
+      }
+    }
   }
 
   // Notify the ISocket logic that its pipe has been detached.
